@@ -90,7 +90,7 @@ def main():
         dst = os.path.join(VERIF, "seeded", sid)
         os.makedirs(dst, exist_ok=True)
         for n in ("patch.diff", "demo.py", "README.md"):
-            if os.path.exists(os.path.join(sdir, n)):
+            if os.path.exists(os.path.join(sdir, n)) and os.path.abspath(sdir) != os.path.abspath(dst):
                 shutil.copy(os.path.join(sdir, n), os.path.join(dst, n))
         old = {}
         mp = os.path.join(dst, "meta.json")
